@@ -70,6 +70,8 @@ type Options struct {
 	Store func(i int, id *m.Address, s *config.Store)
 	// LabelFn overrides the label generator (uniqueness per node is still enforced).
 	LabelFn func(tp *core.Tape) m.SwitchLabel
+	// Edges, if set, fixes the topology (node count = MaxNodes).
+	Edges [][2]int
 	// Idents, if set, fixes the identity of node i (len >= node count).
 	Idents []*m.Address
 	// IdentKind selects the identity range.
@@ -185,6 +187,9 @@ func Build(e *core.Env, o Options) *Mesh {
 	for attempt := 0; ; attempt++ {
 		kind = kinds[tp.Intn(len(kinds))]
 		edges = genTopology(tp, n, kind, o.MaxExtraEdges)
+		if o.Edges != nil {
+			kind, edges = "fixed", o.Edges
+		}
 		adj = make([][]int, n)
 		for _, ed := range edges {
 			adj[ed[0]] = append(adj[ed[0]], ed[1])
